@@ -1,6 +1,8 @@
 CONSTANTS MaxCtx = 2
+          BufSize = 4
+          BlankShortcut = FALSE
           MaxRecords = 3
 INIT SLInit
 NEXT SLNext
-INVARIANTS ReadsBack NoRawBreakInRecord SummaryCountsOnce
+INVARIANTS BufferedReadsBack ReadsBack NoRawBreakInRecord SummaryCountsOnce
 CHECK_DEADLOCK FALSE
